@@ -821,7 +821,18 @@ func genAllOfChain(r *rng) Project {
 				head = strings.Replace(head, "}", ", additionalProperties: true}", 1)
 			}
 		}
-		p.Types = append(p.Types, TypeSpec{Name: name, Kind: "j", Text: "{" + head + "\n  \"" + key + "\": " + strconv.Itoa(i) + extra + "\n}"})
+		val := strconv.Itoa(i)
+		if r.pct(25) {
+			// a property whose rule makes unnamed types (the alternatives of an "or"):
+			// whoever inherits the property has to know them too (defect D12)
+			ann := ` // {or: ["integer", "string"]}`
+			if extra != "" {
+				extra = "," + ann + extra[1:]
+			} else {
+				extra = ann
+			}
+		}
+		p.Types = append(p.Types, TypeSpec{Name: name, Kind: "j", Text: "{" + head + "\n  \"" + key + "\": " + val + extra + "\n}"})
 	}
 	last := names[n-1]
 	switch r.n(4) {
